@@ -108,6 +108,16 @@ def run_compiled(cases, tag, flavor, want, batch_size=150, keep=None):
             import re as _re
             classes = sorted(set(B.classify(e) for e in m.errors))
             alltext = " ".join(e["message"] + " " + e.get("rendered", "") for e in m.errors)
+            # the item each diagnostic sits in (nearest enclosing `pub fn / struct / const / mod / impl` header above the reported line): a
+            # mismatch inside the body of `vs_main_entry` is about the entry helper even if the message only shows an array expression
+            _lines = m.rs.splitlines()
+            for e in m.errors:
+                for ln in e.get("lines", []):
+                    for k in range(min(ln, len(_lines)) - 1, -1, -1):
+                        hm = _re.match(r"\s*(?:pub(?:\([a-z]+\))? )?(?:const )?(?:fn|struct|const|mod|impl(?:<[^>]*>)?) ([\w:<>' ,]+)", _lines[k], _re.UNICODE)
+                        if hm:
+                            alltext += " " + hm.group(0)
+                            break
             flags = [t for t, rx in (("entry", r"ENTRY_|_entry\b|WORKGROUP_SIZE|VertexEntry|FragmentEntry|_pipeline\b"), ("bindgroup", r"BindGroup|bind_groups|LAYOUT_DESCRIPTOR"),
                                      ("override", r"OverrideConstants|\bentries\b"), ("vertex", r"VERTEX_ATTRIBUTES|vertex_buffer_layout"), ("const", r"\bconst\b")) if _re.search(rx, alltext)]
             # structs a layout / padding rejection points at: by name in the assertion text, else by source line
